@@ -279,12 +279,16 @@ Definition step20 (t : N * bool) (s : stim) (p : policy) (o : obs) : option (N *
                     | _ => quiet
                     end in
       let '(q', ka, cl) := ticks20 (N.to_nat (ticks_of s)) quiet0 0 in
-      if negb (count_keepalive ms =? ka) then None
+      let ended := negb (ob_fin o =? 0) in
+      let quiet_stimulus := match base_of s with STicks _ | SMsg KeepAlive | SNop | SStore _ _ => true | _ => false end in
+      if negb quiet_stimulus && ended && negb cl then
+        (* the stimulus itself ended the connection (bad frame, close, manager's answer): it is handled before any
+           time passes, so the timer boundaries crossed while things settled owe no keep-alive *)
+        (if count_keepalive ms =? 0 then Some (q', true) else None)
+      else if negb (count_keepalive ms =? ka) then None
       else if cl then (if ob_fin o =? 2 then Some (q', true) else None)
-      else match base_of s with
-           | STicks _ | SMsg KeepAlive | SNop | SStore _ _ => if ob_fin o =? 0 then Some (q', false) else None
-           | _ => Some (q', negb (ob_fin o =? 0))        (* it may end for other reasons, never for inactivity *)
-           end
+      else if quiet_stimulus then (if ended then None else Some (q', false))
+      else Some (q', false)
   end.
 Fixpoint o20_run (t : N * bool) (steps : list (stim * policy * obs)) : bool :=
   match steps with
